@@ -39,7 +39,7 @@ overlap_indices = REG.add(Contract(
         ("normal return only for non-negative lengths", S.And(a.n_a >= 0, a.n_b >= 0))],
     raises={"ValueError": lambda S, a: S.Or(a.n_a < 0, a.n_b < 0)},
     call_names=("overlap_indices", "strax.overlap_indices"),
-    make_result=None,
+    returns=(("int", "int"), ("int", "int")),
 ))
 
 
@@ -496,7 +496,11 @@ def _gec_placed(S, res, f, m, n, gaps, below):
     q, p_ = z3.Int("gec_q"), z3.Int("gec_p")
     body = z3.Implies(z3.And(0 <= q, q < gaps, _gec_lo(S, f, q) - q <= p_, p_ < _gec_hi(S, f, q, m, n) - q),
                       z3.And(0 <= p_, p_ < below, res.at(p_) == p_ + q))
-    return z3.ForAll([q, p_], body)
+    from pyvc.ops import VT
+    body = z3.Implies(z3.And(0 <= q, q < gaps, _gec_lo(S, f, q) - q <= p_, p_ < _gec_hi(S, f, q, m, n) - q, VT(q), VT(p_)),
+                      z3.And(0 <= p_, p_ < below, res.at(p_) == p_ + q))
+    # instantiated exactly for the (gap, position) pairs a goal names (marker predicate VT, axiomatised true: see pyvc/ops.py)
+    return z3.ForAll([q, p_], body, patterns=[z3.MultiPattern(VT(q), VT(p_))])
 
 
 def _gec_clean(S, res, f, upto_pos, n_full_seen, bound):
